@@ -345,29 +345,19 @@ void do_printf_ints(S &sink, char t, format_options opts,
 			FRG_ASSERT(szmod == printf_size_mod::default_size);
 			number = pop_arg<int>(vsp, &opts);
 		}
-		if(opts.precision && *opts.precision == 0 && !number) {
-			// print nothing in this case
-		}else{
-			_fmt_basics::print_int(sink, number, 10, opts.minimum_width,
-					opts.precision ? *opts.precision : 1, (opts.fill_zeros && !opts.precision) ? '0' : ' ',
-					opts.left_justify, opts.group_thousands, opts.always_sign,
-					opts.plus_becomes_space, false, locale_opts);
-		}
+		_fmt_basics::print_int(sink, number, 10, opts.minimum_width,
+				opts.precision ? *opts.precision : 1, (opts.fill_zeros && !opts.precision) ? '0' : ' ',
+				opts.left_justify, opts.group_thousands, opts.always_sign,
+				opts.plus_becomes_space, false, locale_opts);
 	} break;
 	case 'b':
 	case 'B' : {
 		auto print = [&] (auto number) {
-			if (number && opts.alt_conversion)
-				sink.append(t == 'b' ? "0b" : "0B");
-
-			if(opts.precision && *opts.precision == 0 && !number) {
-				// print nothing in this case
-			}else{
-				_fmt_basics::print_int(sink, number, 2, opts.minimum_width,
-						opts.precision ? *opts.precision : 1, (opts.fill_zeros && !opts.precision) ? '0' : ' ',
-						opts.left_justify, false, false, false,
-						false, locale_opts);
-			}
+			_fmt_basics::print_int(sink, number, 2, opts.minimum_width,
+					opts.precision ? *opts.precision : 1, (opts.fill_zeros && !opts.precision) ? '0' : ' ',
+					opts.left_justify, false, false, false,
+					false, locale_opts,
+					(number && opts.alt_conversion) ? (t == 'b' ? "0b" : "0B") : "");
 		};
 
 		if(szmod == printf_size_mod::char_size) {
@@ -389,17 +379,21 @@ void do_printf_ints(S &sink, char t, format_options opts,
 	} break;
 	case 'o': {
 		auto print = [&] (auto number) {
-			if (number && opts.alt_conversion)
-				sink.append('0');
-
-			if(opts.precision && *opts.precision == 0 && !number) {
-				// print nothing in this case
-			}else{
-				_fmt_basics::print_int(sink, number, 8, opts.minimum_width,
-						opts.precision ? *opts.precision : 1, (opts.fill_zeros && !opts.precision) ? '0' : ' ',
-						opts.left_justify, false, false, false,
-						false, locale_opts);
+			int precision = opts.precision ? *opts.precision : 1;
+			if(opts.alt_conversion) {
+				// The alternative form increases the precision, if and only if necessary,
+				// to force the first digit of the result to be a zero.
+				int num_digits = 0;
+				for(auto n = number; n; n /= 8)
+					num_digits++;
+				if(precision <= num_digits)
+					precision = num_digits + 1;
 			}
+
+			_fmt_basics::print_int(sink, number, 8, opts.minimum_width,
+					precision, (opts.fill_zeros && !opts.precision) ? '0' : ' ',
+					opts.left_justify, false, false, false,
+					false, locale_opts);
 		};
 
 		if(szmod == printf_size_mod::char_size) {
@@ -422,17 +416,11 @@ void do_printf_ints(S &sink, char t, format_options opts,
 	case 'x':
 	case 'X': {
 		auto print = [&] (auto number) {
-			if (number && opts.alt_conversion)
-				sink.append(t == 'x' ? "0x" : "0X");
-
-			if(opts.precision && *opts.precision == 0 && !number) {
-				// print nothing in this case
-			}else{
-				_fmt_basics::print_int(sink, number, 16, opts.minimum_width,
-						opts.precision ? *opts.precision : 1, (opts.fill_zeros && !opts.precision) ? '0' : ' ',
-						opts.left_justify, false, false, false,
-						t == 'X', locale_opts);
-			}
+			_fmt_basics::print_int(sink, number, 16, opts.minimum_width,
+					opts.precision ? *opts.precision : 1, (opts.fill_zeros && !opts.precision) ? '0' : ' ',
+					opts.left_justify, false, false, false,
+					t == 'X', locale_opts,
+					(number && opts.alt_conversion) ? (t == 'x' ? "0x" : "0X") : "");
 		};
 
 		if(szmod == printf_size_mod::char_size) {
@@ -455,14 +443,10 @@ void do_printf_ints(S &sink, char t, format_options opts,
 	case 'u': {
 		auto print = [&] (auto number) {
 			FRG_ASSERT(!opts.alt_conversion);
-			if(opts.precision && *opts.precision == 0 && !number) {
-				// print nothing in this case
-			}else{
-				_fmt_basics::print_int(sink, number, 10, opts.minimum_width,
-						opts.precision ? *opts.precision : 1, (opts.fill_zeros && !opts.precision) ? '0' : ' ',
-						opts.left_justify, opts.group_thousands, false,
-						false, false, locale_opts);
-			}
+			_fmt_basics::print_int(sink, number, 10, opts.minimum_width,
+					opts.precision ? *opts.precision : 1, (opts.fill_zeros && !opts.precision) ? '0' : ' ',
+					opts.left_justify, opts.group_thousands, false,
+					false, false, locale_opts);
 		};
 
 		if(szmod == printf_size_mod::char_size) {
